@@ -498,6 +498,17 @@ func (g *Gen) Txn() []AOp {
 		o.Normalize()
 		ops = append(ops, o)
 	}
+	// waits compare with the state before the transaction (their expected rows
+	// are built from it), so they go first
+	var waits, rest []AOp
+	for _, o := range ops {
+		if o.Op == "wait" {
+			waits = append(waits, o)
+		} else {
+			rest = append(rest, o)
+		}
+	}
+	ops = append(waits, rest...)
 	if g.chance(g.P.Fail) {
 		g.sabotage(&ops, pending)
 	}
@@ -517,9 +528,7 @@ func waitable(c Col, actual interface{}) bool {
 	return ok && len(a) <= 1
 }
 
-func isDefaultAbs(c Col, v interface{}) bool {
-	return fmt.Sprint(v) == fmt.Sprint(DefaultAbs(c)) || fmt.Sprint(v) == "[0 1]" && c.Key.T == "real"
-}
+func isDefaultAbs(c Col, v interface{}) bool { return IsDefaultAbs(c, v) }
 
 func (g *Gen) fillWait(o *AOp, pending map[string][]string) {
 	t := o.Table
@@ -608,11 +617,11 @@ func (g *Gen) sabotage(ops *[]AOp, pending map[string][]string) {
 		var nv interface{}
 		for i := 0; i < 10; i++ {
 			nv = g.value(c, pending)
-			if fmt.Sprint(nv) != fmt.Sprint(g.St[t][u][ic]) {
+			if !sameAbs(nv, g.St[t][u][ic]) {
 				break
 			}
 		}
-		if fmt.Sprint(nv) == fmt.Sprint(g.St[t][u][ic]) {
+		if sameAbs(nv, g.St[t][u][ic]) {
 			bad = AOp{Op: "abort", Table: t}
 			break
 		}
